@@ -31,6 +31,9 @@ package groups
 //@   ensures [C17] success_replaces_the_list: !busy && err == nil ==> result && at(@Unlock#3, (group in c.cache) && c.cache[group] == @fillFunc#1.0)
 //@   ensures [C17] failure_keeps_the_previous_list: !busy && err != nil && err != ErrGroupNotFound ==> !result && at(@Unlock#3, (group in c.cache)) == at(@Lock#2, (group in c.cache)) && at(@Unlock#3, c.cache[group]) == at(@Lock#2, c.cache[group])
 //@   ensures [C17] missing_group_is_dropped: !busy && err == ErrGroupNotFound ==> !result && at(@Unlock#3, !(group in c.cache))
+// which refresh loops exist is RefreshLoop's business (and the loop's own exit): a fill never touches the registrations
+//@   ensures [C17] loop_registrations_untouched_when_busy: busy ==> forall k string :: before(@Unlock#1, (k in c.refreshLoopGroups)) == at(@Lock#1, (k in c.refreshLoopGroups))
+//@   ensures [C17] loop_registrations_untouched_by_a_fill: !busy ==> forall k string :: before(@Unlock#2, (k in c.refreshLoopGroups)) == at(@Lock#1, (k in c.refreshLoopGroups)) && before(@Unlock#3, (k in c.refreshLoopGroups)) == at(@Lock#2, (k in c.refreshLoopGroups))
 //@   ensures [C17] other_groups_untouched: !busy ==> (forall k string :: k != group ==> at(@Unlock#3, (k in c.cache)) == at(@Lock#2, (k in c.cache)) && at(@Unlock#3, c.cache[k]) == at(@Lock#2, c.cache[k]))
 //@   ensures [C17] marker_cleared_for_the_next_fill: !busy ==> at(@Unlock#3, !(group in c.inflight))
 
